@@ -135,6 +135,9 @@ func (v *visitor) VisitPrimaryExpr(ctx *parser.PrimaryExprContext) any {
 		return ctx.Operand().Accept(v)
 	case ctx.PrimaryExpr() != nil:
 		primaryValue := ctx.PrimaryExpr().Accept(v)
+		if v.error != nil {
+			return nil // 前面的求值已经失败 不能再拿它的 nil 结果去取字段/下标/调用函数(无参函数会被真的调用 产生副作用)
+		}
 		switch {
 		case ctx.Field() != nil:
 			// struct?.field
